@@ -117,7 +117,12 @@ func c18Reframe(r *rand.Rand, frame []byte) ([]byte, string) {
 	i := strings.Index(string(frame), "\r\n\r\n")
 	body := frame[i+4:]
 	n := len(body)
-	switch r.Intn(6) {
+	switch r.Intn(8) {
+	case 5:
+		// other headers whose names merely end in the length header's name, before and after it
+		return append([]byte(fmt.Sprintf("X-Original-Content-Length: 3\r\nContent-Length: %d\r\nX-Uncompressed-Content-Length: 7\r\n\r\n", n)), body...), "lookalike-headers"
+	case 6:
+		return append([]byte(fmt.Sprintf("Content-Length: %d\r\nX-Content-Length: 999999\r\n\r\n", n)), body...), "lookalike-header-after"
 	case 0:
 		return append([]byte(fmt.Sprintf("content-length: %d\r\n\r\n", n)), body...), "lower-case-header"
 	case 1:
